@@ -14,7 +14,8 @@ open Bandit
 theorem any_context_visited {root n : Node} (h : Below root n) : ∃ v ∈ visits root, v.node = n :=
   below_visited h []
 
-/-- **Call reported.** A call anywhere in the traversal whose name — resolved under the alias table
+/-- **Call reported.** (`hid`: rule IDs are non-empty — `gen_tables_wellformed` shows the
+generated tables satisfy it.) A call anywhere in the traversal whose name — resolved under the alias table
 built by the traversal prefix — is a qualified name of rule `r` (first match in table order) is
 reported with `r`'s ID and severity, HIGH confidence, on the line/column where the call starts,
 provided no nosec comment sits on the call's lines. -/
@@ -29,7 +30,7 @@ theorem call_reported
     (hq : callName (stateAfter {} (pre ++ [v])).aliases c = q)
     (hni : c.func.nameId? ≠ some "__import__".toList)
     (hq1 : q ≠ "importlib.import_module".toList) (hq2 : q ≠ "importlib.__import__".toList)
-    (hr : firstCallRule (t.rulesFor "Call".toList) q = some r)
+    (hr : firstCallRule (t.rulesFor "Call".toList) q = some r) (hid : r.id ≠ [])
     (hns : NoNosecOn inp.nosec (linerange v.node v.sib)) :
     (⟨r.id, r.level, .high, p.line, linerange v.node v.sib, p.col⟩ : Finding)
       ∈ findingsOf (scanFile checks inp) := by
@@ -47,7 +48,7 @@ theorem call_reported
   have hrunv : bc.run env = .ok (some { id := r.id, sev := r.level, conf := .high }) := by
     rw [hrun]
     exact blacklistRun_call (e := env) hkind hc hni (hqual ▸ hq1) (hqual ▸ hq2) (hqual ▸ hr)
-  have := runCheck_plain (nm := inp.nosec) hrunv hns rfl rfl (l := p.line) (col := p.col)
+  have := runCheck_plain (nm := inp.nosec) hrunv hid hns rfl rfl (l := p.line) (col := p.col)
     (by simp [env, Node.line?, hpos]) (by simp [env, Node.col?, hpos])
   show _ ∈ runCheck inp.nosec env bc
   rw [this]
@@ -121,7 +122,7 @@ theorem import_reported
     (hk : k = "Import" ∨ (k = "ImportFrom" ∧ (importModule? v.node).isSome))
     (hkind : v.node.kind = k.toList)
     (hpos : v.node.pos = some p)
-    (hr : firstImportRule (t.rulesFor k.toList) (importFullNames v.node) = some r)
+    (hr : firstImportRule (t.rulesFor k.toList) (importFullNames v.node) = some r) (hid : r.id ≠ [])
     (hns : NoNosecOn inp.nosec (linerange v.node v.sib)) :
     (⟨r.id, r.level, .high, p.line, linerange v.node v.sib, p.col⟩ : Finding)
       ∈ findingsOf (scanFile checks inp) := by
@@ -157,7 +158,7 @@ theorem import_reported
       simp only [blacklistRun, Env.node, env, h1, h2, h3, Bool.false_eq_true, if_false, Bool.false_or, if_true, hkind]
       rw [hr]
       rfl
-  have := runCheck_plain (nm := inp.nosec) hrunv hns rfl rfl (l := p.line) (col := p.col)
+  have := runCheck_plain (nm := inp.nosec) hrunv hid hns rfl rfl (l := p.line) (col := p.col)
     (by simp [env, Node.line?, hpos]) (by simp [env, Node.col?, hpos])
   show _ ∈ runCheck inp.nosec env bc
   rw [this]
